@@ -526,6 +526,18 @@ func (cl *Cluster) OpenConns() int {
 	return len(cl.conns)
 }
 
+// ConnOpen reports whether the connection with this id is still open.
+func (cl *Cluster) ConnOpen(id int) bool {
+	cl.mu.Lock()
+	defer cl.mu.Unlock()
+	for c := range cl.conns {
+		if c.id == id {
+			return true
+		}
+	}
+	return false
+}
+
 // DropDCPConns closes every DCP connection (socket-closed stream ends on the client).
 func (cl *Cluster) DropDCPConns() int {
 	cl.mu.Lock()
@@ -688,6 +700,10 @@ func (c *conn) dispatch(p *pkt, key []byte, cid uint32, req *Req) {
 		}
 		c.reply(p, 0, nil, nil, nil, 0)
 	case OpGetClusterCfg:
+		cl.mu.Lock()
+		rev, ep := cl.Rev, cl.RevEpoch
+		cl.mu.Unlock()
+		cl.logAdd(evlog.Rec{K: "sim.cfg", VB: -1, A: uint64(rev), B: uint64(ep), Cn: c.id})
 		c.reply(p, 0, nil, nil, cl.configJSON(), 0)
 	case OpNoop:
 		c.reply(p, 0, nil, nil, nil, 0)
@@ -1422,6 +1438,18 @@ func (cl *Cluster) SetCollHigh(vbID uint16, cid uint32, high uint64) {
 	}
 	vb.CollHigh[cid] = high
 	vb.mu.Unlock()
+}
+
+// SetRevision sets the revision counters of the cluster map (call inside BumpConfig's f, which then adds 1 to rev).
+func (cl *Cluster) SetRevision(rev, epoch int) {
+	cl.Rev, cl.RevEpoch = rev, epoch
+}
+
+// Revision returns (rev, revEpoch).
+func (cl *Cluster) Revision() (int, int) {
+	cl.mu.Lock()
+	defer cl.mu.Unlock()
+	return cl.Rev, cl.RevEpoch
 }
 
 // SetReplicaNode changes which node holds replica index ix of the vBucket (-1 = unassigned). Call before clients bootstrap, or follow with BumpConfig.
